@@ -55,6 +55,10 @@ def generate(seed, tier, index):
         'environ': dict(common.BASE_ENV, **rng.choice([{}, {'WAYLAND_DEBUG': '0'}, {'WAYLAND_DEBUG': 'client'},
                                                        {'LD_LIBRARY_PATH': '/opt/lib'}, {'FOO': 'bar baz', 'EMPTY': ''}])),
     }
+    if rng.random() < 0.2:
+        # programs write arbitrary bytes to stderr: a few undecodable ones must still display the same in all three modes
+        from .. import faults as F
+        cfg['byte_faults'] = F.gen_faults(rng, rng.randint(1, 3), ['badutf8', 'badutf8', 'flip', 'nul'])
     if tier == 'thorough' and index < 8:
         cfg['calibrate_real_child'] = True       # stub fidelity: the same stream through a real `main.py -r` with a real child
         cfg['prog'] = ['prog']
@@ -122,7 +126,7 @@ def calibrate_real_child(cfg, data, sim_res):
 def simplifications(sc):
     cfg = sc['config']
     for k, v in (('epoch_us', 0), ('nonewline', False), ('chunks', [1 << 20]), ('writes', [1 << 20]), ('cap', 65536),
-                 ('status', 0), ('prog', ['prog']), ('suppress', False)):
+                 ('status', 0), ('prog', ['prog']), ('suppress', False), ('byte_faults', None)):
         if cfg.get(k) != v:
             c = dict(sc)
             c['config'] = dict(cfg)
@@ -139,6 +143,9 @@ def execute(sc):
     V = common.Viol()
     st = L.build_stream(sc, rig.REPO)
     data = st.data
+    if cfg.get('byte_faults'):
+        from .. import faults as F
+        data = F.apply_byte_faults(data, cfg['byte_faults'], V.counters)
     thread_errors = []
     old_hook = threading.excepthook
     threading.excepthook = lambda a: thread_errors.append((a.exc_type.__name__, str(a.exc_value)))
